@@ -182,6 +182,35 @@ Example zero_amount_per_unit_prints_total :
       mkLine [67%Z] PReal SUncleared None None None None].
 Proof. vm_compute. reflexivity. Qed.
 
+(* ---- a single posting under a bucket directive (`bucket B`, `A B`, `account B` + `default`): finalize adds the
+   balancing posting on B, which takes over the state of the posting it balances (xact.cc:214-218).  Printed
+   (the inferred posting as a bare account line) and read back, the transaction has the same two postings with the
+   same exact amounts, and both postings carry the written posting's state in the original AND in the re-read journal *)
+Theorem bucket_single_posting_roundtrip : forall ord cp xs b acct k a e,
+  k <> PVirtual -> printable cp a -> is_zero cp a = false ->
+  e_given e = None -> e_assigned e = None -> (e_state e = SUncleared -> xs = SUncleared) ->
+  let ps' := [mkp acct k (Some a); mkPost b PReal (Some (amt_neg (unkeep a))) None None true false false] in
+  finalize ord cp (Some b) [mkp acct k (Some a)] = Ok (Accepted ps') /\
+  map (fun x => e_state (snd x)) (attach ps' [e]) = [e_state e; e_state e] /\
+  exists ls, decide cp xs (attach ps' [e]) = Ok ls /\
+    map (fun x => e_state (snd x)) (reread cp xs ls) = [e_state e; e_state e] /\
+    exists ps'', finalize ord cp None (map fst (reread cp xs ls)) = Ok (Accepted ps'') /\ Forall2 psim ps'' ps'.
+Proof. exact PrintProofs.bucket_single_posting_roundtrip. Qed.
+Print Assumptions bucket_single_posting_roundtrip.
+
+(* `bucket B` and `2021/01/04 * x / A $42.10`: two lines, none with a mark of its own under the `*` header *)
+Example ex_bucket_cleared :
+  match finalize false cp2 (Some [66%Z]) [mkp [65%Z] PReal (Some (mkAmt (421 # 10) 2 false usd))] with
+  | Ok (Accepted ps') =>
+      match decide cp2 SCleared (attach ps' [no_extra SCleared]) with
+      | Ok ls => map l_mark ls = [SUncleared; SUncleared] /\
+                 map (fun x => e_state (snd x)) (reread cp2 SCleared ls) = [SCleared; SCleared]
+      | _ => False
+      end
+  | _ => False
+  end.
+Proof. vm_compute. split; reflexivity. Qed.
+
 (* ---- states: the mark print writes brings the posting's state back.  The hypothesis is the
    invariant parse_post establishes (a posting is UNCLEARED only under an uncleared transaction: one
    without its own mark inherits the transaction's state), so it holds of every journal that was read.
